@@ -533,6 +533,11 @@ class Engine(ExprMixin, BuiltinMixin):
 
     def stmt_Assign(self, st, s):
         val = self.eval(st, s.value)
+        if is_static(val, "sdict") and not val.items and len(s.targets) == 1 and isinstance(s.targets[0], ast.Name) \
+                and self.inline_depth == 0 and str(self.cur.locals.get(s.targets[0].id, "")).startswith("dlog"):
+            # a dict that is only ever filled by `d[key] = value` with run-time string keys: represented by its insertion
+            # log (keys and values in insertion order); the dict is dict(zip(keys, values)), a function of the log
+            val = V(("dlog",), items=(st.new_seq(("str",), "list", z3.IntVal(0)), st.new_seq(("val",), "list", z3.IntVal(0))))
         if is_static(val, "emptylist") and len(s.targets) == 1 and isinstance(s.targets[0], ast.Name) \
                 and self.inline_depth == 0 and s.targets[0].id in self.cur.locals:
             t = parse_type(self.cur.locals[s.targets[0].id])
@@ -712,6 +717,11 @@ class Engine(ExprMixin, BuiltinMixin):
         for n in sorted(self._mutated_lists(body)):
             if n in st.env and st.env[n].t[0] == "list":
                 self._havoc_seq(st, st.env[n])
+        for node in ast.walk(ast.Module(body=list(body), type_ignores=[])):
+            if isinstance(node, ast.Subscript) and isinstance(node.ctx, ast.Store) and isinstance(node.value, ast.Name) \
+                    and node.value.id in st.env and st.env[node.value.id].t[0] == "dlog":
+                for part in st.env[node.value.id].items:
+                    self._havoc_seq(st, part)
         for t in targets:
             if t[0] == "content":
                 self._havoc_seq(st, t[1])
